@@ -113,6 +113,9 @@ def build_examples():
     key = "examples"
     if key in _built:
         return _built[key]
+    if os.environ.get("VERIF_EXAMPLES_DIR"):   # coverage measurement only
+        _built[key] = os.environ["VERIF_EXAMPLES_DIR"]
+        return _built[key]
     tdir = os.path.join(HARNESS, "target-repo")
     rc, out = sh(["cargo", "build", "--offline", "-q", "-p", "xml-xpath", "--examples",
                   "--target-dir", tdir], cwd=REPO, timeout=1800)
